@@ -21,6 +21,10 @@ Proof.
   - exists a. split; [now left | exact E].
 Qed.
 
+Lemma forallb_pointwise {A} (f h : A -> bool) (l : list A) :
+  (forall x, f x = h x) -> forallb f l = forallb h l.
+Proof. intro H. induction l as [|a l IH]; [reflexivity|]. cbn. now rewrite H, IH. Qed.
+
 (* ================= generic graphs ================= *)
 Section GraphProofs.
 Variable node : Type.
@@ -193,7 +197,7 @@ Qed.
 (* ---------- the theorems ---------- *)
 Theorem frees_all_iff_acyclic g : wf_graph g -> (frees_all g = true <-> acyclic g).
 Proof.
-  intro Hwf. unfold RcGraph.frees_all, RcGraph.freed. rewrite forallb_forall. split.
+  intro Hwf. unfold RcGraph.frees_all, RcGraph.freed. cbv zeta. rewrite forallb_forall. split.
   - intros Hall n Hc.
     assert (Hn : In n (g_nodes g)).
     { destruct (ct_first _ _ _ Hc) as [z Hz]. now apply Hwf in Hz. }
@@ -208,7 +212,7 @@ Qed.
 Theorem leaked_iff_cycle g : wf_graph g -> forall n,
   In n (leaked g) <-> (In n (g_nodes g) /\ exists c, reach g c c /\ (c = n \/ reach g c n)).
 Proof.
-  intros Hwf n. unfold RcGraph.leaked, RcGraph.freed. rewrite filter_In. split.
+  intros Hwf n. unfold RcGraph.leaked, RcGraph.freed. cbv zeta. rewrite filter_In. split.
   - intros [Hn Hm]. split; [exact Hn|]. apply negb_true_iff in Hm.
     apply (not_within_cycle g Hwf n Hn).
     destruct (freed_within g (length (g_nodes g)) n) eqn:E; [|reflexivity].
@@ -222,12 +226,67 @@ Proof.
     + apply (within_no_cycle g _ c (within_pred g _ n c E Hcn)). exact Hcc.
 Qed.
 
+(* ---------- the early-exit evaluation computes the same set ---------- *)
+Definition same_set (F F' : list node) : Prop := forall x, In x F <-> In x F'.
+
+Lemma mem_ext F F' x : same_set F F' -> mem x F = mem x F'.
+Proof.
+  intro H. destruct (mem x F) eqn:E1, (mem x F') eqn:E2; try reflexivity.
+  - apply mem_In in E1. apply H in E1. apply mem_In in E1. congruence.
+  - apply mem_In in E2. apply H in E2. apply mem_In in E2. congruence.
+Qed.
+
+Lemma round_ext g F F' : same_set F F' -> release_round node eqb g F = release_round node eqb g F'.
+Proof.
+  intro H. unfold release_round. apply filter_ext. intro n.
+  induction (preds g n) as [|m r IH]; [reflexivity|]. cbn. now rewrite IH, (mem_ext F F' m H).
+Qed.
+
+Lemma released_mono g : wf_graph g -> forall k n, In n (released g k) -> In n (released g (S k)).
+Proof.
+  intros Hwf k n H. apply (released_within g Hwf) in H. apply (released_within g Hwf).
+  split; [tauto | now apply within_mono].
+Qed.
+
+Lemma released_stable g : wf_graph g -> forall k,
+  (forall n, In n (released g (S k)) -> In n (released g k)) ->
+  forall j, same_set (released g (k + j)) (released g k).
+Proof.
+  intros Hwf k Hsub. assert (H1 : same_set (released g (S k)) (released g k)).
+  { intro x. split; [apply Hsub | apply (released_mono g Hwf)]. }
+  induction j as [|j IH].
+  - rewrite Nat.add_0_r. intro x. tauto.
+  - rewrite Nat.add_succ_r. cbn [RcGraph.released]. rewrite (round_ext g _ _ IH).
+    exact H1.
+Qed.
+
+Lemma released_until_spec g : wf_graph g -> forall fuel k,
+  same_set (released_until node eqb g fuel (released g k)) (released g (k + fuel)).
+Proof.
+  intros Hwf fuel. induction fuel as [|f IH]; intro k.
+  - cbn. rewrite Nat.add_0_r. intro x. tauto.
+  - cbn [RcGraph.released_until].
+    destruct (forallb (fun n => mem n (released g k)) (release_round node eqb g (released g k))) eqn:E.
+    + intro x. symmetry. apply (released_stable g Hwf k).
+      intros n Hn. rewrite forallb_forall in E. apply mem_In. apply E. exact Hn.
+    + change (release_round node eqb g (released g k)) with (released g (S k)).
+      rewrite Nat.add_succ_r. change (S (k + f)) with (S k + f). apply IH.
+Qed.
+
+Theorem frees_all_fast_correct g : wf_graph g -> frees_all_fast node eqb g = frees_all g.
+Proof.
+  intro Hwf. unfold RcGraph.frees_all_fast, RcGraph.frees_all, RcGraph.freed_fast, RcGraph.freed. cbv zeta.
+  assert (Hs : same_set (released_until node eqb g (length (g_nodes g)) []) (released g (length (g_nodes g))))
+    by exact (released_until_spec g Hwf (length (g_nodes g)) 0).
+  apply forallb_pointwise. intro n. now apply mem_ext.
+Qed.
+
 Corollary frees_all_false_cycle g : wf_graph g -> frees_all g = false -> exists c, reach g c c.
 Proof.
-  intros Hwf Hf. unfold RcGraph.frees_all in Hf. apply forallb_false_ex in Hf.
+  intros Hwf Hf. unfold RcGraph.frees_all in Hf. cbv zeta in Hf. apply forallb_false_ex in Hf.
   destruct Hf as [n [Hn Hm]].
   assert (Hl : In n (leaked g)).
-  { unfold RcGraph.leaked. apply filter_In. split; [exact Hn | now rewrite Hm]. }
+  { unfold RcGraph.leaked. cbv zeta. apply filter_In. split; [exact Hn | now rewrite Hm]. }
   apply (leaked_iff_cycle g Hwf) in Hl. destruct Hl as [_ [c [Hc _]]]. now exists c.
 Qed.
 
@@ -435,11 +494,17 @@ Proof.
   apply (frees_all_iff_acyclic pos pos_eqb pos_eqb_eq _ (wf_T root)). apply tree_acyclic.
 Qed.
 
+Lemma cont_positions_nodes root p : In p (cont_positions root []) -> In p (story_nodes root).
+Proof.
+  intro H. unfold story_nodes. apply dedup_pos_In. apply in_flat_map. exists p. split; [exact H|].
+  apply in_prefixes. exists (length p). split; [lia | now rewrite firstn_all].
+Qed.
+
 Lemma wf_cacheb_sound root resolved : wf_cacheb root resolved = true -> wf_cache root resolved.
 Proof.
   unfold wf_cacheb, wf_cache. rewrite forallb_forall. intros H d c Hin.
   specialize (H _ Hin). cbn in H. apply andb_true_iff in H. destruct H as [H1 H2].
-  split; now apply (mem_In pos pos_eqb pos_eqb_eq).
+  split; apply cont_positions_nodes; now apply (mem_In pos pos_eqb pos_eqb_eq).
 Qed.
 
 (* a story leaks iff its resolved diverts follow each other in a cycle:
@@ -542,9 +607,11 @@ Proof.
   - apply (leak_characterisation root resolved Hwf) in Es. fold C in Es.
     apply (dg_cyclic_iff C) in Es. destruct Es as [i Hc].
     unfold predicts_leak. fold C. cbn [andb]. apply negb_true_iff.
+    rewrite (frees_all_fast_correct nat Nat.eqb nat_eqb_eq _ (wf_DG C)).
     destruct (RcGraph.frees_all nat Nat.eqb (divert_graph C)) eqn:E; [|reflexivity].
     apply (frees_all_iff_acyclic nat Nat.eqb nat_eqb_eq _ (wf_DG C)) in E. now apply E in Hc.
   - unfold predicts_leak. fold C. cbn [andb]. apply negb_false_iff.
+    rewrite (frees_all_fast_correct nat Nat.eqb nat_eqb_eq _ (wf_DG C)).
     apply (frees_all_iff_acyclic nat Nat.eqb nat_eqb_eq _ (wf_DG C)).
     intros i Hc.
     assert (Hex : exists i, reach nat (divert_graph C) i i) by now exists i.
